@@ -61,6 +61,9 @@ type result struct {
 	ExemptAtStop      int    `json:"exempt_at_stop"`
 	RootExitedAtStop  bool   `json:"root_exited_at_stop"`
 
+	PreScanUs int64 `json:"pre_stop_observation_us_informational"`
+	StopLagUs int64 `json:"stop_issued_us_after_call_informational"`
+
 	Awaited  string `json:"awaited"` // whose completion marks "the stop is over"
 	Returned bool   `json:"returned_by_itself"`
 	ReturnMs int64  `json:"return_ms_informational"`
@@ -185,6 +188,58 @@ func (h *harness) observe() view {
 	}
 	sort.Slice(v.in, func(i, j int) bool { return v.in[i].Pid < v.in[j].Pid })
 	return v
+}
+
+// observeFast finds the processes of the tree right after the call without reading the whole of /proc:
+// pids are handed out sequentially, so anything spawned since the call is just below the most
+// recently allocated pid (last field of /proc/loadavg). Used for the bookkeeping of the early stop
+// instants only (what existed at the stop, which generation a Restart replaced), never for a verdict.
+func (h *harness) observeFast() (v view) {
+	last := 0
+	if b, err := os.ReadFile("/proc/loadavg"); err == nil {
+		f := strings.Fields(string(b))
+		if len(f) > 0 {
+			last, _ = strconv.Atoi(f[len(f)-1])
+		}
+	}
+	if last == 0 {
+		return h.observe()
+	}
+	pidMax := 32768
+	if b, err := os.ReadFile("/proc/sys/kernel/pid_max"); err == nil {
+		if n, err := strconv.Atoi(strings.TrimSpace(string(b))); err == nil {
+			pidMax = n
+		}
+	}
+	mine := map[int]bool{h.self.Pid: true}
+	var cand []pstat
+	for i := 0; i < 400; i++ {
+		pid := last - i
+		if pid < 2 {
+			pid += pidMax - 1
+		}
+		if st, ok := readStat(pid); ok && pid != h.self.Pid {
+			cand = append(cand, st)
+		}
+	}
+	for round := 0; round < 6; round++ { // children, grandchildren, ...
+		for _, st := range cand {
+			if mine[st.PPid] {
+				mine[st.Pid] = true
+			}
+		}
+	}
+	for _, st := range cand {
+		if !mine[st.Pid] || !st.alive() || !isThreadGroupLeader(st.Pid) {
+			continue // /proc/<tid> also answers for threads, which readdir never lists
+		}
+		if st.Sid != h.self.Sid || st.Pgrp == h.self.Pgrp {
+			v.exempt = append(v.exempt, st)
+		} else {
+			v.in = append(v.in, st)
+		}
+	}
+	return
 }
 
 func (h *harness) describe(ps []pstat) (out []survivor) {
@@ -433,55 +488,79 @@ func (h *harness) run(loggers *memLoggers) {
 	}
 
 	// state at the stop request
-	if mainCall != nil && isDone(mainCall.done) && res.Vacuous == "" && cs.Stop != "context-deadline" {
+	if mainCall != nil && isDone(mainCall.done) && cs.Stop != "context-deadline" {
 		res.Vacuous = "the call had already returned before the stop request"
+		return
 	}
-	var pre view
-	if cs.Anchor == "create" {
+	// The instants 0/1/5 ms after the call must not be delayed by reading /proc: there the tree is
+	// looked at right AFTER the stop was issued (bookkeeping only: what existed around the stop).
+	// Restart needs to know the old generation beforehand.
+	lateScan := cs.Anchor == "call" && cs.Stop != "Restart"
+	fill := func(pre view) {
+		h.preStop = map[[2]uint64]bool{}
+		for _, p := range append(append([]pstat{}, pre.in...), pre.exempt...) {
+			h.preStop[ident(p.Pid, p.StartTime)] = true
+		}
+		h.note(pre.in)
+		res.LiveInGroupAtStop = len(pre.in)
+		res.ExemptAtStop = len(pre.exempt)
+	}
+	preStart := time.Now()
+	switch {
+	case lateScan:
+	case cs.Anchor == "create":
 		if v := lastSample.Load(); v != nil {
-			pre = *v
+			fill(*v)
 		}
-	} else {
-		pre = h.observe()
+	case cs.Anchor == "call":
+		fill(h.observeFast())
+	default:
+		fill(h.observe())
 	}
-	h.preStop = map[[2]uint64]bool{}
-	for _, p := range append(append([]pstat{}, pre.in...), pre.exempt...) {
-		h.preStop[ident(p.Pid, p.StartTime)] = true
-	}
-	h.note(pre.in)
-	entries, _ := readRegistry(h.registry)
-	ready := false
-	rootRegistered, rootAlive := false, false
-	for _, e := range entries {
-		if e.Ready {
-			ready = true
-		}
-		if e.Pid != 0 {
-			res.RegisteredAtStop++
-			if e.ID == "0" {
-				rootRegistered = true
-				if _, ok := stillSame(e.Pid, e.StartTime); ok {
-					rootAlive = true
+	res.PreScanUs = time.Since(preStart).Microseconds()
+	regState := func() {
+		entries, _ := readRegistry(h.registry)
+		ready, rootRegistered, rootAlive := false, false, false
+		res.RegisteredAtStop = 0
+		for _, e := range entries {
+			if e.Ready {
+				ready = true
+			}
+			if e.Pid != 0 {
+				res.RegisteredAtStop++
+				if e.ID == "0" {
+					rootRegistered = true
+					if _, ok := stillSame(e.Pid, e.StartTime); ok {
+						rootAlive = true
+					}
 				}
 			}
 		}
+		res.RootExitedAtStop = rootRegistered && !rootAlive
+		switch {
+		case ready:
+			res.Phase = "ready"
+		case res.RegisteredAtStop > 0 || res.LiveInGroupAtStop > 0:
+			res.Phase = "during spawn"
+		default:
+			res.Phase = "nothing spawned yet"
+		}
 	}
-	res.RootExitedAtStop = rootRegistered && !rootAlive
+	if !lateScan {
+		regState()
+	}
 	res.IsOnAtStop = isOn()
-	res.LiveInGroupAtStop = len(pre.in)
-	res.ExemptAtStop = len(pre.exempt)
-	switch {
-	case ready:
-		res.Phase = "ready"
-	case res.RegisteredAtStop > 0 || len(pre.in) > 0:
-		res.Phase = "during spawn"
-	default:
-		res.Phase = "nothing spawned yet"
-	}
 
 	// the stop request
 	var stopCall *asyncCall
+	if cs.Stop == "Cancel" && !res.IsOnAtStop {
+		// Cancel() ends the context of the current run only; issued before the run has begun it is
+		// legitimately without effect (Execute creates a fresh context)
+		res.Vacuous = "Cancel() before the subprocess was on"
+		return
+	}
 	stopAt := time.Now()
+	res.StopLagUs = stopAt.Sub(t0).Microseconds()
 	switch cs.Stop {
 	case "context-cancel":
 		cancel()
@@ -496,6 +575,10 @@ func (h *harness) run(loggers *memLoggers) {
 	case "Restart":
 		stopCall = goCall(cur.Load().Restart)
 		res.Awaited = "Restart"
+	}
+	if lateScan {
+		fill(h.observeFast())
+		regState()
 	}
 
 	// what marks the end of the stop
